@@ -53,6 +53,10 @@ CALLBACK_SNIPPETS = [
     "dd = arrayNew(objectNew('a', 1), objectNew('a', 2))\nfunction cf(x):\n    yy = x * 2\n    return yy\nendfunction\ndataCalculatedField(dd, 'b', 'cf(a) + kk', objectNew('kk', 10))\nsystemLog('cv ' + jsonStringify(dd))",
     "ld = arrayNew(objectNew('k', 1), objectNew('k', 2))\nrd = arrayNew(objectNew('k', 2, 'v', 'x'), objectNew('k', 1, 'v', 'y'))\nfunction kf(x):\n    zq = x + 0\n    return zq\nendfunction\njj = dataJoin(ld, rd, 'kf(k)')\nsystemLog('j ' + arrayLength(jj))",
     "ld = arrayNew(objectNew('k', 1), objectNew('k', 2))\nrd = arrayNew(objectNew('k', 2, 'v', 'x'), objectNew('k', 1, 'v', 'y'))\nfunction kf(x):\n    zq = x + 0\n    return zq\nendfunction\njj = dataJoin(ld, rd, 'kf(k) + off', null, false, objectNew('off', 0))\nsystemLog('jv ' + arrayLength(jj))",
+    # empty / one-sided inputs of the data functions (callbacks on the other side still count)
+    "le = arrayNew()\nrd = arrayNew(objectNew('k', 2), objectNew('k', 1))\nfunction kf(x):\n    zq = x + 0\n    return zq\nendfunction\njj = dataJoin(le, rd, 'k', 'kf(k) + off', false, objectNew('off', 0))\nsystemLog('je ' + arrayLength(jj))",
+    "ld = arrayNew(objectNew('k', 1))\nre = arrayNew()\nfunction kf(x):\n    zq = x + 0\n    return zq\nendfunction\njj = dataJoin(ld, re, 'kf(k) + off', null, true, objectNew('off', 0))\nsystemLog('jr ' + arrayLength(jj))",
+    "de = arrayNew()\nfunction cb(x):\n    return x\nendfunction\nr1 = dataFilter(de, 'cb(a)', objectNew('zz', 1))\ndataCalculatedField(de, 'b', 'cb(a)', objectNew('zz', 1))\nsystemLog('fe ' + arrayLength(r1))",
 ]
 
 NONTERM_SNIPPETS = [
@@ -135,6 +139,8 @@ def real_run(model, init, limit, files, base, api, options=None, debug=False):
     fs = VirtualFS(files, norm=norm_url)
     if options is None:
         options = WatchedOptions()
+    if limit is not None and limit % 5 == 2:
+        limit = float(limit)  # one number type: a limit given as 7.0 (or the documented default 1e9) is the limit 7
     options.update({'globals': g, 'logFn': logs.append, 'maxStatements': limit, 'fetchFn': fs,
                     'urlFn': functools.partial(url_file_relative, base)})
     if limit is None:
